@@ -5,7 +5,8 @@ import glob, json, os, shutil, subprocess, sys
 
 PY = "/venv/bin/python"
 WT = "/tmp/seed/verify"
-only = sys.argv[1:] 
+checks_only = "--checks-only" in sys.argv
+only = [a for a in sys.argv[1:] if not a.startswith("--")]
 
 def sh(cmd, cwd=None, timeout=900):
     r = subprocess.run(cmd, shell=True, cwd=cwd, capture_output=True, text=True, timeout=timeout)
@@ -28,14 +29,21 @@ for prop_dir in sorted(glob.glob("/tmp/seed/C[0-9][0-9]")):
         os.makedirs(out, exist_ok=True)
         open(f"{out}/demo.py", "w").write(demo_src)
         shutil.copy(patch, f"{out}/patch.diff")
+        prev = json.load(open(f"{out}/meta.json")) if os.path.exists(f"{out}/meta.json") else None
+        if checks_only and prev and prev.get("confirmed_at_repo_head") == head:
+            rc0, rc1, ot, ra = prev["what_i_ran"]["demo_without_patch_exit"], prev["what_i_ran"]["demo_with_patch_exit"], prev["what_i_ran"]["tests_with_patch"], 0
+            skip_confirm = True
+        else:
+            skip_confirm = False
         # confirm in the scratch worktree (demo pointed at it)
         open(f"{WT}/_demo.py", "w").write(demo_src.replace("/repo", WT))
-        sh("git checkout -- a816 script", cwd=WT)
-        rc0, o0 = sh(f"timeout 600 {PY} _demo.py", cwd=WT)
-        ra, oa = sh(f"git apply {patch}", cwd=WT)
-        rt, ot = sh(f"{PY} -m pytest -q -p no:cacheprovider --timeout=900 2>&1 | tail -1", cwd=WT)
-        rc1, o1 = sh(f"timeout 600 {PY} _demo.py", cwd=WT)
-        sh("git checkout -- a816 script", cwd=WT)
+        if not skip_confirm:
+            sh("git checkout -- a816 script", cwd=WT)
+            rc0, o0 = sh(f"timeout 600 {PY} _demo.py", cwd=WT)
+            ra, oa = sh(f"git apply {patch}", cwd=WT)
+            rt, ot = sh(f"{PY} -m pytest -q -p no:cacheprovider --timeout=900 2>&1 | tail -1", cwd=WT)
+            rc1, o1 = sh(f"timeout 600 {PY} _demo.py", cwd=WT)
+            sh("git checkout -- a816 script", cwd=WT)
         confirmed = ra == 0 and rc0 == 0 and rc1 != 0 and "103 passed" in ot
         # checks on /repo
         assert sh("git diff --quiet", cwd="/repo")[0] == 0, "/repo dirty"
